@@ -52,17 +52,16 @@ let errs_str (l : sberr list) : string = "[" ^ String.concat ";" (List.sort comp
 let renumber (text : string) : string =
   let n = String.length text in
   let b = Buffer.create n in
-  let seen = ref [] in
+  let seen = Hashtbl.create 16 in
   let i = ref 0 in
   while !i < n do
-    if !i + 4 <= n && String.sub text !i 4 = "Ox(n" then begin
+    if text.[!i] = 'O' && !i + 4 <= n && text.[!i + 1] = 'x' && text.[!i + 2] = '(' && text.[!i + 3] = 'n' then begin
       Buffer.add_string b "Ox(n";
       let j = String.index_from text (!i + 4) ')' in
       let id = String.sub text (!i + 4) (j - !i - 4) in
-      let rec pos k = function [] -> None | x :: r -> if x = id then Some k else pos (k + 1) r in
-      let k = match pos 0 (List.rev !seen) with
+      let k = match Hashtbl.find_opt seen id with
         | Some k -> k
-        | None -> seen := id :: !seen; List.length !seen - 1 in
+        | None -> let k = Hashtbl.length seen in Hashtbl.add seen id k; k in
       Buffer.add_string b (string_of_int k);
       i := j
     end else begin
